@@ -221,6 +221,7 @@ func cmdRx(args []string) int {
 	tier := fs.String("tier", "quick", "tier")
 	_ = fs.String("out", "", "unused")
 	fs.Parse(args)
+	noLongHays = *tier == "thorough" // the thorough ledgers predate the long-haystack families (DESIGN section 5)
 	if *tier == "thorough" && *npat == 400 {
 		*npat = 4000
 	}
@@ -234,8 +235,14 @@ func cmdRx(args []string) int {
 	r := newRng(*seed)
 	pg := &patGen{r: r.fork(1), corpus: loadCorpus(*corpus)}
 	modelQueries := 0
-	for i := 0; i < *npat; i++ {
-		pat, src := pg.next(i)
+	late := lateCuratedFor(*tier == "thorough")
+	for i := 0; i < *npat+len(late); i++ {
+		var pat, src string
+		if i < *npat {
+			pat, src = pg.next(i)
+		} else {
+			pat, src = late[i-*npat], "curated-late"
+		}
 		c, why := prepCase(i, pat, src, rr.model)
 		if c == nil {
 			st.hist("skip:" + why)
